@@ -31,8 +31,8 @@ Record Spec := {
 Inductive hev (S : Spec) :=
 | HInv (t : nat) (o : Op S)                    (* thread t invokes o       *)
 | HRes (t : nat) (r : Res S).                  (* thread t returns r       *)
-Arguments HInv {S} t o.
-Arguments HRes {S} t r.
+Arguments HInv {S} & t o.
+Arguments HRes {S} & t r.
 
 Definition history (S : Spec) := list (hev S).
 
